@@ -145,9 +145,15 @@ func filewValue(p *Program, io *StageIO, t *T, n int64, dir, tag string, pad *in
 		return a
 	case TTMap:
 		o := Obj(nil)
+		kstyle := int64(0)
+		if io.Args != nil && io.Args.K == VObj {
+			if m, ok := io.Args.O["kstyle"]; ok {
+				kstyle = m.Int()
+			}
+		}
 		for i := int64(0); i < n; i++ {
 			k := "k" + strconv.FormatInt(i, 10)
-			o.O[k] = filewValue(p, io, t.Elem, n, dir, tag+"_"+k, pad)
+			o.O[MapKeyStyle(kstyle, i)] = filewValue(p, io, t.Elem, n, dir, tag+"_"+k, pad)
 		}
 		return o
 	case TStruct:
@@ -159,6 +165,31 @@ func filewValue(p *Program, io *StageIO, t *T, n int64, dir, tag string, pad *in
 		return o
 	}
 	return Null()
+}
+
+// MapKeyStyle gives the i-th key of the typed maps FILEW produces.
+// 0 plain; 1 legal file names with unusual characters; 2 a key holding '/';
+// 3 the reserved names "." and ".."; 4 the empty key; 5 quotes, backslashes
+// and control characters.
+func MapKeyStyle(style, i int64) string {
+	plain := "k" + strconv.FormatInt(i, 10)
+	var special []string
+	switch style {
+	case 1:
+		special = []string{"a b", "\u00fc\u4e2d", "k.2", "%2F", "-x", "*", "~", "$HOME"}
+	case 2:
+		special = []string{"a/b", "/abs"}
+	case 3:
+		special = []string{"..", "."}
+	case 4:
+		special = []string{""}
+	case 5:
+		special = []string{"q\"uote", "back\\slash", "new\nline", "tab\t", "<&>"}
+	}
+	if int(i) < len(special) {
+		return special[i]
+	}
+	return plain
 }
 
 // StageResult is what the stage function produced.
